@@ -117,10 +117,20 @@ def install(reg: Registry):
 
     # ---- Model.asset_to_dict: (asset.id, {'name', 'type', 'defenses' iff any non-default defense, 'extras' iff non-empty})
     DefensesOf = z3.Function('DefensesOf', Addr, Addr)      # abstract: the dict get_asset_defenses builds for an asset (PJS internals)
+    # spec function: how many defenses of an asset differ from their language default — a function of the asset's (ghost)
+    # defense-value dict and its type; get_asset_defenses returns a dict of that size
+    _HasRow, _ValRow = z3.ArraySort(Val, z3.BoolSort()), z3.ArraySort(Val, Val)
+    NonDefaultCount = z3.Function('NonDefaultCount', _HasRow, _ValRow, Str, z3.IntSort())
+
+    def ndc(o, x):
+        dv = o.f('defvals', x)
+        return NonDefaultCount(z3.Select(o.arr['D_has'], dv), z3.Select(o.arr['D_val'], dv), o.f('type', x))
     reg.add(Contract(MM + ':Model.get_asset_defenses', {'self': Obj(MODEL), 'asset': Obj(ASSET), 'include_defaults': T.bool}, returns=Dict(T.str, T.val),
                      trusted=True, allocates=True, modifies=DICT_ARRAYS + ('cls', 'own_obj'),
-                     ensures=lambda c: [('fresh', z3.And(c.res >= c.old.alloc, c.res < c.h.alloc, c.h.cls(c.res) == CLS_DICT))] + region_same(c.old, c.h),
-                     note='PJS internals (asset._properties, json_schema lookups, value.default()): a fresh dict of the non-default defense values; content not specified'))
+                     ensures=lambda c: [('fresh', z3.And(c.res >= c.old.alloc, c.res < c.h.alloc, c.h.cls(c.res) == CLS_DICT)),
+                                        ('size', z3.Implies(z3.Not(c.include_defaults), z3.And(c.h.size(c.res) == ndc(c.old, c.asset), ndc(c.old, c.asset) >= 0)))] + region_same(c.old, c.h),
+                     note='PJS internals (asset._properties, json_schema lookups, value.default()): a fresh dict of the non-default defense values; its size is '
+                          'the spec function NonDefaultCount(defense values of the asset, its type); the entries themselves are not specified'))
     reg.contracts[MM + ':Model.get_asset_defenses'].defaults = {'include_defaults': sv_bool(False)}
 
     def x_ensures(c):
@@ -136,6 +146,7 @@ def install(reg: Registry):
             ('name-type', z3.And(h.val(R, K('name')) == VStr(o.f('name', x)), h.val(R, K('type')) == VStr(o.f('type', x)))),
             ('keys', FA([k], z3.Implies(h.has(R, k), z3.Or(k == K('name'), k == K('type'), k == K('defenses'), k == K('extras'))), [h.has(R, k)])),
             ('required-keys', z3.And(h.has(R, K('name')), h.has(R, K('type')))),
+            ('defenses.iff', h.has(R, K('defenses')) == (ndc(o, x) > 0)),
             ('defenses', z3.Implies(h.has(R, K('defenses')), z3.And(is_VRef(h.val(R, K('defenses'))), Dd >= o.alloc, h.cls(Dd) == CLS_DICT, h.size(Dd) > 0))),
             ('extras', z3.And(h.has(R, K('extras')) == (o.size(X) > 0),
                               z3.Implies(o.size(X) > 0, z3.And(is_VRef(h.val(R, K('extras'))), XR >= o.alloc, h.cls(XR) == CLS_DICT,
